@@ -33,7 +33,7 @@ func init() {
 		Cases:       func(tier string) int { return pick(tier, 420, 9000) },
 		Run:         c04Run,
 		Init:        c04Init,
-		MinDistinct: func(tier string) int { return pick(tier, 150, 400) },
+		MinDistinct: func(tier string) int { return pick(tier, 150, 300) },
 	})
 }
 
